@@ -192,6 +192,11 @@ class Bounds(object):
             return True
         if n["k"] == "sizeof":
             return True
+        if n["k"] == "call" and (n.get("c") or "").split("::")[-1] in ("GetColumn", "GetOrigCol", "GetOrigColEnd", "GetLevel", "GetBraceLevel",
+                                                                        "GetPpLevel", "GetNlCount", "GetOrigLine", "GetColumnIndent"):
+            return True                      # size_t accessors of Chunk
+        if n["k"] == "bin" and n["op"] in ("+", "-", "*"):
+            return self._is_unsigned_expr(n["a"][0]) or self._is_unsigned_expr(n["a"][1])
         return False
 
     def _rel_ge(self, a, b):
